@@ -133,7 +133,7 @@ def build_driver(bdir):
     return build_prog(bdir, "of_driver", os.path.join(HARNESS, "of_driver.c"), objs, wrap=True)
 
 
-ASAN_ENV = {"ASAN_OPTIONS": "detect_leaks=0:abort_on_error=0:halt_on_error=1:allocator_may_return_null=1:"
+ASAN_ENV = {"ASAN_OPTIONS": "detect_leaks=0:abort_on_error=0:halt_on_error=1:allocator_may_return_null=1:max_allocation_size_mb=3072:"
                             "detect_stack_use_after_return=0:malloc_context_size=8"}
 
 
